@@ -140,6 +140,14 @@ pub fn solve_milp_lp_problem_with(
         microlp_vars.push(added_var);
     }
 
+    // MicroLP has no objective constant, yet it measures the relative MIP gap on the
+    // objective it is given. Carry a non-zero offset on a column fixed at 1, so that the
+    // gap refers to the objective of the model and not to a shifted one.
+    let offset_in_problem = lp.objective_offset() != 0.0;
+    if offset_in_problem {
+        problem.add_var(lp.objective_offset(), (1.0, 1.0));
+    }
+
     for constraint in lp.constraints() {
         let coeffs = constraint.coefficients();
         let rhs = constraint.rhs();
@@ -209,12 +217,12 @@ pub fn solve_milp_lp_problem_with(
                 .collect();
             let coeffs = microlp_vars.iter().map(|v| s.var_value(*v)).collect();
             let constraints = make_constraints_map_from_assignment(lp, &coeffs);
-            Ok(LpSolution::new(
-                assignment,
-                s.objective() + lp.objective_offset(),
-                constraints,
-            )
-            .with_status(status))
+            let value = if offset_in_problem {
+                s.objective()
+            } else {
+                s.objective() + lp.objective_offset()
+            };
+            Ok(LpSolution::new(assignment, value, constraints).with_status(status))
         }
         Err(e) => Err(match e {
             Error::InternalError(s) => SolverError::Other(s),
